@@ -16,10 +16,34 @@
    store in which the syncs that follow only write other indices (which is
    what C06 guarantees for the blocks of different tasks). *)
 From Coq Require Import ZArith List Bool Arith.
-From SK Require Import Model.Base Model.Store Spec.Store Proofs.Store
-     Model.Result Proofs.Result Gen.Params.
+From SK Require Import Model.Base Model.Skel Model.Stm Model.SequenceSk
+     Model.Store Model.StoreSk Spec.Store Proofs.Store
+     Model.Result Proofs.Result Gen.Params Gen.SkelTree.
 Import ListNotations.
 Open Scope Z_scope.
+
+(* ---- T1: calls and if / loop nesting of the trees extracted from
+   result.py are the ones Model/Result.v is written against:
+   store_result: groups() then one _save_part per group, or group(0);
+   _save_part: (value and field_info) -> index_to_name, ensure_type; then
+   ONE results_store.add; then the entry appended;
+   _get_store_id: one pass over the parts, name test or index test, first
+   part whose store id is not None; get: _get_store_id then the store *)
+Theorem C05_store_result_shape :
+  calls_only_list tk_store_result = expected_store_result.
+Proof. vm_compute. reflexivity. Qed.
+
+Theorem C05_save_part_shape :
+  calls_only_list tk_save_part = expected_save_part.
+Proof. vm_compute. reflexivity. Qed.
+
+Theorem C05_get_store_id_shape :
+  calls_only_list tk_get_store_id = expected_get_store_id.
+Proof. vm_compute. reflexivity. Qed.
+
+Theorem C05_result_get_shape :
+  calls_only_list tk_result_get = expected_result_get.
+Proof. vm_compute. reflexivity. Qed.
 
 (* in-process search (ResultStoreSimple) *)
 Theorem C05_readback_exact_plain :
